@@ -3,6 +3,7 @@
 use crate::report::RunOut;
 use crate::seq;
 use crate::twin;
+use crate::wire;
 use crate::world::{Backend, Entry};
 use serde::{Deserialize, Serialize};
 
@@ -11,6 +12,7 @@ pub enum Plan {
     Seq(seq::SeqPlan),
     Twin(twin::TwinPlan),
     Iso(twin::IsoPlan),
+    Wire(wire::WirePlan),
 }
 
 #[derive(Clone, Debug, Serialize, Deserialize, PartialEq)]
@@ -18,6 +20,7 @@ pub enum JobKind {
     Seq { backend: Backend, entry: Entry, focus: seq::Focus },
     Twin { mode: twin::TwinMode },
     Iso { backend: Backend, entry: Entry },
+    Wire { backend: Backend },
 }
 
 #[derive(Clone, Debug)]
@@ -33,6 +36,7 @@ pub fn gen(kind: &JobKind, seed: u64, thorough: bool) -> Plan {
         JobKind::Seq { backend, entry, focus } => Plan::Seq(seq::gen_plan(seed, *backend, *entry, *focus, thorough)),
         JobKind::Twin { mode } => Plan::Twin(twin::gen_plan(seed, *mode, thorough)),
         JobKind::Iso { backend, entry } => Plan::Iso(twin::gen_iso(seed, *backend, *entry, thorough)),
+        JobKind::Wire { backend } => Plan::Wire(wire::gen_plan(seed, *backend, thorough)),
     }
 }
 
@@ -41,6 +45,7 @@ pub fn exec(plan: &Plan) -> RunOut {
         Plan::Seq(p) => seq::exec(p),
         Plan::Twin(p) => twin::exec(p),
         Plan::Iso(p) => twin::exec_iso(p),
+        Plan::Wire(p) => wire::exec(p),
     }
 }
 
@@ -49,6 +54,7 @@ pub fn scenario_name(plan: &Plan) -> &'static str {
         Plan::Seq(_) => "seq",
         Plan::Twin(_) => "twin",
         Plan::Iso(_) => "iso",
+        Plan::Wire(_) => "wire",
     }
 }
 
@@ -57,6 +63,7 @@ pub fn size(plan: &Plan) -> usize {
         Plan::Seq(p) => p.ops.len(),
         Plan::Twin(p) => p.ops.len(),
         Plan::Iso(p) => p.ops.len(),
+        Plan::Wire(p) => p.ops.len() + p.setup.len(),
     }
 }
 
@@ -65,6 +72,7 @@ fn candidates(plan: &Plan) -> Vec<Plan> {
         Plan::Seq(p) => seq::shrink(p).into_iter().map(Plan::Seq).collect(),
         Plan::Twin(p) => twin::shrink(p).into_iter().map(Plan::Twin).collect(),
         Plan::Iso(p) => twin::shrink_iso(p).into_iter().map(Plan::Iso).collect(),
+        Plan::Wire(p) => wire::shrink(p).into_iter().map(Plan::Wire).collect(),
     }
 }
 
